@@ -494,8 +494,8 @@ func CheckC08(r *Report) {
 // CheckC13 — one version per string.
 func CheckC13(r *Report) {
 	plan := strPlanFor(r.Tier)
-	r.Rule = strRule("Oracle: no string is accepted by two parsers; plus Vector() of every object of the E2 presence sweeps is rejected by the three other parsers.")
-	RunStrSpace(r, SOneVer|SAccept, plan)
+	r.Rule = strRule("Oracle: no string is accepted by two parsers; plus Vector() of every object of the E2 sweeps is accepted by its own version's parser and rejected by the three other parsers.")
+	RunStrSpace(r, SOneVer, plan)
 	// Vector() of one version against the other parsers, on the E2 sweeps
 	op := ObjPlan{T: 2, W: 6, WCap: 1 << 14, Rotations: 2, FullV2: false, Preds: PredForeign}
 	if r.Tier == "thorough" {
